@@ -45,6 +45,7 @@ TRUSTED = base.TRUSTED
 PARTIAL = []
 
 NULLLOG = base.NULLLOG
+_history = dict(last_file_region=None, last_sky=None)
 
 
 # ------------------------------------------------------------------------------------------------
@@ -218,18 +219,65 @@ def sky_header(rng, H, W):
     return h, vals
 
 
-def make_region(spec):
+OPS = dict(without='without', intersect='intersect', symdiff='symmetric_difference', union='union')
+
+
+def spec_ops(spec):
+    """the edit history of a circle-based region spec: [(op, circle)], holes being `without` edits"""
+    return [('without', h) for h in spec.get('holes', [])] + [(o['op'], o) for o in spec.get('ops', [])]
+
+
+def make_region(spec, history=False):
+    """build the region of a spec.  history=False: a fresh object that is never queried while it is built.
+    history=True: the way a long-lived object is used - it is QUERIED (sky_within) after it is created and after
+    every edit (without / intersect / symmetric_difference / union), so any cache filled by a query is stale
+    at the next edit unless the implementation invalidates it."""
     from AegeanTools.regions import Region
     reg = Region(maxdepth=spec['depth'])
-    if spec['shape'] in ('circle', 'circle-hole'):
-        reg.add_circles(np.radians(spec['ra']), np.radians(spec['dec']), np.radians(spec['radius']))
-        for h in spec.get('holes', []):        # the usual way of excluding a troublesome source: Region.without
-            hole = Region(maxdepth=spec['depth'])
-            hole.add_circles(np.radians(h['ra']), np.radians(h['dec']), np.radians(h['radius']))
-            reg.without(hole)
-    else:
+    if spec['shape'] == 'poly':
         reg.add_poly(np.radians(np.array(spec['poly'])))
+        return reg
+    reg.add_circles(np.radians(spec['ra']), np.radians(spec['dec']), np.radians(spec['radius']))
+    probe = (np.array([spec['ra'], spec['ra'] + 0.003]), np.array([spec['dec'], spec['dec'] - 0.002]))
+    if history:
+        reg.sky_within(probe[0], probe[1], degin=True)
+    for op, circ in spec_ops(spec):
+        other = Region(maxdepth=spec['depth'])
+        other.add_circles(np.radians(circ['ra']), np.radians(circ['dec']), np.radians(circ['radius']))
+        getattr(reg, OPS[op])(other)
+        if history:
+            reg.sky_within(probe[0], probe[1], degin=True)
     return reg
+
+
+def angdist(ra1, dec1, ra2, dec2):
+    a1, d1, a2, d2 = (np.radians(x) for x in (ra1, dec1, ra2, dec2))
+    h = np.sin((d2 - d1) / 2) ** 2 + np.cos(d1) * np.cos(d2) * np.sin((a2 - a1) / 2) ** 2
+    return np.degrees(2 * np.arcsin(np.sqrt(np.clip(h, 0, 1))))
+
+
+def geometric_bounds(spec, ra, dec):
+    """independent (HEALPix-free) bounds on membership for circle-based specs: lo = certainly inside,
+    hi = possibly inside.  A circle added with query_disc(inclusive=True) contains every point closer than r to its
+    centre and no point farther than r + 3 * max_pixrad; set operations are propagated in three-valued logic."""
+    import healpy as hp
+    m = 3.0 * float(np.degrees(hp.max_pixrad(2 ** spec['depth']))) + 1e-7
+
+    def circ(c):
+        d = angdist(ra, dec, c['ra'], c['dec'])
+        return d < c['radius'] - 1e-7, d < c['radius'] + m
+    lo, hi = circ(spec)
+    for op, c in spec_ops(spec):
+        blo, bhi = circ(c)
+        if op == 'without':
+            lo, hi = lo & ~bhi, hi & ~blo
+        elif op == 'intersect':
+            lo, hi = lo & blo, hi & bhi
+        elif op == 'union':
+            lo, hi = lo | blo, hi | bhi
+        else:
+            lo, hi = (lo & ~bhi) | (blo & ~hi), (hi & ~blo) | (bhi & ~lo)
+    return lo, hi
 
 
 def oracle_inside(wcs, reg, H, W):
@@ -245,6 +293,7 @@ def oracle_inside(wcs, reg, H, W):
     for da, dd in [(1e-9, 0), (-1e-9, 0), (0, 1e-9), (0, -1e-9)]:
         if not np.array_equal(ins, np.asarray(reg.sky_within(ra + da, dec + dd, degin=True), dtype=bool)):
             stable = False
+    _history['last_sky'] = (ra.reshape(H, W), dec.reshape(H, W))
     return ins.reshape(H, W), stable
 
 
@@ -378,7 +427,9 @@ def run(ctx):
         evaluate(ctx, cases[lo:lo + 4000])
     # through the public entry point: find_sources_in_image(mask=Region | .mim path) vs the filtered unrestricted run
     finder_hole_runs(ctx, rng, 6 if ctx.quick else 40)
-    finder_region_runs(ctx, rng, 3 if ctx.quick else 60)
+    finder_region_runs(ctx, rng, 2 if ctx.quick else 40)
+    finder_edit_runs(ctx, rng, 6 if ctx.quick else 40, deep=False)
+    finder_edit_runs(ctx, rng, 6 if ctx.quick else 24, deep=True)
 
 
 def search(ctx):
@@ -409,13 +460,12 @@ def replay(ctx, rec):
 
 
 WORKFILE = 'field.mim'        # ONE working file name, rewritten with every case's region (a history in one process)
-_history = dict(last_file_region=None)
 CSV_COLS = ('ra', 'dec', 'peak_flux', 'int_flux', 'a', 'b', 'pa', 'err_ra', 'err_dec', 'err_peak_flux', 'local_rms')
 
 
-def write_workfile(ctx, spec):
+def write_workfile(ctx, spec, history=False):
     path = os.path.join(ctx.tmpdir(), WORKFILE)
-    make_region(spec).save(path)
+    make_region(spec, history=history).save(path)
     _history['last_file_region'] = spec
     return path
 
@@ -464,11 +514,20 @@ def finder_region_one(ctx, c):
     im, bkg, rms, flood, seed, _ = base.arrays(c)
     routes = c.get('routes') or (['file'] if c.get('as_file') else ['object'])
     hdu = fits.PrimaryHDU(im.astype(np.float64))
-    for k, v in base.HDR.items():
+    for k, v in dict(base.HDR, **(c.get('hdr') or {})).items():
         hdu.header[k] = v
     path = os.path.join(ctx.tmpdir(), f"finder_{base.case_key(c)}.fits")
     hdu.writeto(path, overwrite=True)
-    reg = make_region(c['region'])
+    hist = bool(c.get('region_history'))
+    try:
+        reg = make_region(c['region'])          # a FRESH object, used for the oracle only
+        reg.sky_within(np.array([c['region'].get('ra', 0.0)]), np.array([c['region'].get('dec', 0.0)]), degin=True)
+    except Exception as e:
+        ctx.fail('spec', dict(c, pretty=base.pretty(c)),
+                 f"building / querying the region (maxdepth {c['region']['depth']}) raised {type(e).__name__}: {e}",
+                 dict(site='Region.sky_within', clause='raises', region=True, depth=c['region']['depth']))
+        ctx.count('finder-region-run')
+        return True
     with warnings.catch_warnings():
         warnings.simplefilter('ignore')
         w = WCS(hdu.header, naxis=2)
@@ -479,6 +538,19 @@ def finder_region_one(ctx, c):
     if not stable:
         ctx.count('ambiguous-skipped')
         return
+    if c['region']['shape'] != 'poly':
+        ra, dec = _history['last_sky']
+        lo, hi = geometric_bounds(c['region'], ra, dec)
+        if (lo & ~ins).any() or (ins & ~hi).any():
+            miss, extra = int((lo & ~ins).sum()), int((ins & ~hi).sum())
+            ctx.fail('spec', dict(c, pretty=base.pretty(c)),
+                     f"Region (maxdepth {c['region']['depth']}, circles + {[o for o, _ in spec_ops(c['region'])]}) disagrees with "
+                     f"spherical geometry on the image's pixel centres: {miss} centres certainly inside are reported outside, "
+                     f"{extra} certainly outside are reported inside (of {ins.size}); islands there would be lost / kept wrongly",
+                     dict(site='Region.sky_within', clause='region-membership-geometry', region=True,
+                          depth=c['region']['depth'], interior_lost=miss > 0))
+            ctx.count('finder-region-run')
+            return True
     allw, _ = base.oracle(im, bkg, rms, flood, seed, None)
     want = [wd for wd in allw if any(ins[p] for p in wd[1])]
     want_set = {(wd[0], len(wd[1])) for wd in want}
@@ -504,13 +576,14 @@ def finder_region_one(ctx, c):
         bad = None
         try:
             if route == 'cli':
-                got_rows = cli_components(ctx, path, write_workfile(ctx, c['region']), flood, seed)
+                got_rows = cli_components(ctx, path, write_workfile(ctx, c['region'], hist), flood, seed)
                 ncomp = len(got_rows)
                 if got_rows != exp_rows:
                     bad = (f"aegean --region {WORKFILE} --table: {len(got_rows)} components, not the {len(exp_rows)} components "
                            f"(identical values) of the islands of the unrestricted run with an own pixel inside the region")
             else:
-                mask_arg = reg if route == 'object' else write_workfile(ctx, c['region'])
+                # the mask is a separate object with exactly the history we give it (never the oracle's object)
+                mask_arg = make_region(c['region'], hist) if route == 'object' else write_workfile(ctx, c['region'], hist)
                 comps1, isles1 = base.finder_sources(path, flood, seed, mask=mask_arg)
                 ncomp = len(comps1)
                 got_set = set(isles1.values())
@@ -532,10 +605,21 @@ def finder_region_one(ctx, c):
             if route != 'object' and prev is not None and prev != c['region']:
                 bad += (f"; the working file {WORKFILE} held a different region in the previous run of this process "
                         f"(the result must depend on the file's current content only)")
-            ctx.fail('spec', dict(case, pretty=base.pretty(c)), f"route {route}: " + bad,
-                     dict(site='find_sources_in_image', clause='restricted-eq-filter', region=True, route=route))
+            sig = dict(site='find_sources_in_image', clause='restricted-eq-filter', region=True, route=route)
+            if hist:
+                # same region, object never queried while it was built: if that one is right, the answer depends on history
+                try:
+                    c2, i2 = base.finder_sources(path, flood, seed, mask=make_region(c['region'], False))
+                    if set(i2.values()) == want_set:
+                        sig['what'] = 'history-dependence'
+                        bad += ("; a Region object built by the same edits but never queried in between gives the right answer "
+                                "(the result depends on earlier sky_within queries: history-dependence)")
+                except Exception:
+                    pass
+            ctx.fail('spec', dict(case, pretty=base.pretty(c)), f"route {route}: " + bad, sig)
         ctx.count('finder-region-run')
-        ctx.count('finder-region:' + c['region']['shape'] + '-' + route)
+        ctx.count('finder-region:' + c['region']['shape'] + ('+history' if hist else '') + '-' + route)
+        ctx.count('finder-depth:%d' % c['region']['depth'])
     ctx.count('finder-components', ncomp)
     H, W = im.shape
     perimeter_inside = bool(ins[0, :].all() and ins[-1, :].all() and ins[:, 0].all() and ins[:, -1].all())
@@ -601,6 +685,54 @@ def finder_hole_runs(ctx, rng, n):
                          extra=dict(finder=True, region=spec, routes=routes_for(ctx, done)))
         if finder_region_one(ctx, c):
             done += 1
+
+
+QUADS = [(40.0, -60.0), (130.0, 20.0), (220.0, -20.0), (310.0, 60.0), (75.0, -35.0), (170.0, 50.0), (255.0, -75.0), (350.0, 5.0)]
+
+
+def wcs_for(hdr_over):
+    from astropy.wcs import WCS
+    from astropy.io import fits
+    h = fits.Header()
+    for k, v in dict(base.HDR, **(hdr_over or {})).items():
+        h[k] = v
+    with warnings.catch_warnings():
+        warnings.simplefilter('ignore')
+        return WCS(h, naxis=2)
+
+
+def finder_edit_runs(ctx, rng, n, deep):
+    """Region objects with a HISTORY (query -> set-operation edit -> query -> used as mask) and, for deep=True,
+    regions at maxdepth 13-15 in all four RA quadrants and both hemispheres (circles added with add_circles)"""
+    for k in range(n):
+        over = None
+        if deep:
+            ra0, dec0 = QUADS[(k + ctx.seed) % len(QUADS)]
+            over = dict(CRVAL1=ra0 + float(rng.uniform(-5, 5)), CRVAL2=dec0 + float(rng.uniform(-3, 3)))
+        w = wcs_for(over)
+        im = base.blob_image(rng, nblob=int(rng.integers(3, 7)))
+        H, W = im.shape
+
+        def sky(r, q):
+            a, d = w.wcs_pix2world([[q, r]], 0)[0]
+            return float(a), float(d)
+        depth = int([14, 15, 14, 13, 15, 14][(k + ctx.seed) % 6]) if deep else int(rng.choice([11, 12, 13]))
+        ra0, dec0 = sky(rng.uniform(0, H - 1), rng.uniform(0, W - 1))
+        spec = dict(shape='circle-ops', ra=ra0, dec=dec0, radius=float(0.01 * rng.uniform(6, 16)), depth=depth, ops=[])
+        nops = int(rng.integers(1, 3)) if not deep else int(rng.integers(0, 2))
+        isl, _ = base.oracle(im, np.zeros_like(im), np.ones_like(im), 4.0, 5.0, None)
+        for _ in range(nops):
+            if isl and rng.random() < 0.6:          # aim the edit at a source
+                pr, pq = isl[rng.integers(0, len(isl))][1][0]
+                a, d = sky(pr + rng.uniform(-2, 2), pq + rng.uniform(-2, 2))
+            else:
+                a, d = sky(rng.uniform(0, H - 1), rng.uniform(0, W - 1))
+            spec['ops'].append(dict(op=str(rng.choice(['without', 'without', 'intersect', 'symdiff', 'union'])),
+                                    ra=a, dec=d, radius=float(0.01 * rng.uniform(4, 12))))
+        c = base.mk_case('finder', im, np.zeros_like(im), np.ones_like(im), 4.0, 5.0,
+                         extra=dict(finder=True, region=spec, hdr=over, region_history=bool(nops) and (not deep or k % 2 == 0),
+                                    routes=routes_for(ctx, k)))
+        finder_region_one(ctx, c)
 
 
 def finder_region_runs(ctx, rng, n):
